@@ -377,6 +377,9 @@ pub enum Ev {
     Taken(EvSnap),
     /// After taking an event the observer could not get a lock it shares with the machine.
     ObserverBlocked { on: &'static str },
+    /// At the end of a poll: a timer armed during that poll whose future was never polled (a timer implementation
+    /// that starts counting on first poll is not running).
+    TimerNotStarted { id: usize },
     /// The embedder changed the id of the system app in place (channel change).
     EmbedderRename { to: String },
     /// An embedder task held the storage lock for a step, then the app-set lock, and released both.
@@ -468,6 +471,8 @@ pub struct FaultPlan {
     /// If set, `fail_keys` only apply while update check number k (0-based, in order of first request) is the
     /// most recent one.
     pub fail_keys_during_check: Option<usize>,
+    /// The n-th commit attempt (0-based, counted over the whole run) fails.
+    pub fail_commit_nth: Vec<u64>,
 }
 
 #[derive(Default)]
@@ -478,6 +483,7 @@ pub struct StorageState {
     pub fault: FaultPlan,
     pub mut_ops: u64,
     pub commits: u64,
+    pub commit_attempts: u64,
     /// Every committed snapshot, in order (index 0 = preload).
     pub history: Vec<BTreeMap<String, Val>>,
 }
@@ -493,6 +499,12 @@ impl StorageState {
         let i = self.mut_ops;
         self.mut_ops += 1;
         self.fault.fail_all || self.fault.fail_ops.contains(&i)
+    }
+    pub fn next_commit_fails(&mut self) -> bool {
+        let n = self.commit_attempts;
+        self.commit_attempts += 1;
+        let f = self.next_op_fails();
+        f || self.fault.fail_commit_nth.contains(&n)
     }
     pub fn next_key_op_fails(&mut self, key: &str, checks_started: usize) -> bool {
         let i = self.mut_ops;
